@@ -303,7 +303,7 @@ class CtlHost(UTMIHost):
     # ---- host actions ---------------------------------------------------------------------------
     async def run_script(self, ctx, script):
         """Execute host actions; returns the list of records.  Action fields:
-        tok : pid addr ep [ok=True] [trunc=None] [wait]      data: pid bytes [ok=True] [trunc=None] [wait]
+        tok : pid addr ep [ok=True] [trunc=None] [wait]      data: pid bytes [ok=True] [trunc=None] [suffix] [wait]
         hs  : pid [if_data=True] [wait]                      sof : frame [ok]        junk: bytes
         reset: [cycles]         idle: n         src: en (bulk-IN source enable)
         `wait` = idle cycles after the packet before the next action (default: resp_wait when a response
@@ -334,6 +334,13 @@ class CtlHost(UTMIHost):
                 payload = list(a["bytes"])
                 octets = data_bytes(a["pid"], payload, corrupt_crc=(a.get("flip", 1) if not ok else False))
                 trunc = a.get("trunc")
+                suffix = list(a.get("suffix") or [])
+                if suffix:
+                    # bytes that keep coming after a complete packet (trailing garbage / a merged packet) before
+                    # rx_active falls: on the wire this is ONE longer data packet, whose last two bytes are its CRC16
+                    octets = octets + suffix
+                    payload = octets[1:-2]
+                    ok = crc16(payload) == (octets[-2] | (octets[-1] << 8))
                 rec.update(pid=a["pid"], bytes=payload, crc=[octets[-2], octets[-1]],
                            ok=bool(ok and trunc is None), tr=trunc is not None)
                 if trunc is not None:
@@ -350,7 +357,7 @@ class CtlHost(UTMIHost):
                 ok = a.get("ok", True)
                 rec.update(ok=ok)
                 await self.send_raw(ctx, sof_bytes(a.get("frame", 0), corrupt_crc=not ok))
-                await self._window(ctx, a.get("wait", self.rng.randint(4, 8)))
+                await self._window(ctx, a.get("wait", self.rng.randint(7, 12)))
             elif k == "junk":
                 rec.update(ok=False)
                 await self.send_raw(ctx, list(a["bytes"]))
